@@ -52,6 +52,16 @@ func MockSpecs(thorough bool) []*spec.Spec {
 	mk("examples_int64_unparsable", "kind=int64,card=singular,examples=unparsable", spec.M("Resp", spec.F("val", "int64").Ex("seven", "8")), nil, nil)
 	mk("examples_nested", "kind=message,card=singular,examples=parsable",
 		spec.M("Resp", spec.Msg("inner", "Inner")), []*spec.Message{spec.M("Inner", spec.F("val", "string").Ex("x1", "x2"))}, nil)
+	addr := func() *spec.Message {
+		return spec.M("Address", spec.F("street", "string").Ex("1 Main St", "2 Side Rd"), spec.F("zip", "int64").Ex("10115", "75001"))
+	}
+	mk("examples_shared_type", "kind=message,card=twice,examples=parsable",
+		spec.M("Resp", spec.F("order_ref", "string").Ex("A-1", "B-2"), spec.Msg("billing", "Address"), spec.Msg("shipping", "Address")), []*spec.Message{addr()}, nil)
+	mk("examples_diamond", "kind=message,card=diamond,examples=parsable",
+		spec.M("Resp", spec.Msg("left", "Left"), spec.Msg("right", "Right")),
+		[]*spec.Message{spec.M("Left", spec.Msg("addr", "Address")), spec.M("Right", spec.Msg("addr", "Address"), spec.F("tag", "string").Ex("x", "y")), addr()}, nil)
+	mk("examples_map_and_singular", "kind=message,card=map+singular,examples=parsable",
+		spec.M("Resp", spec.Msg("by_key", "Address").Map(), spec.Msg("main", "Address")), []*spec.Message{addr()}, nil)
 	mk("examples_quote", "kind=string,card=singular,examples=quote", spec.M("Resp", spec.F("val", "string").Ex(`say "hi"`, `back\slash`)), nil, nil)
 	return out
 }
